@@ -51,6 +51,9 @@ impl DataFragSubmessage {
                 FragmentNumber::try_read_from_bytes(&mut slice, endianness)?;
             let fragments_in_submessage = u16::try_read_from_bytes(&mut slice, endianness)?;
             let fragment_size = u16::try_read_from_bytes(&mut slice, endianness)?;
+            if fragment_size == 0 {
+                return Err(RtpsMessageError::InvalidData);
+            }
             let data_size = u32::try_read_from_bytes(&mut slice, endianness)?;
 
             let end_position = if submessage_header.submessage_length() == 0 {
